@@ -42,7 +42,7 @@ S = 32768
 FLOOR = -2560   # lg(2^-40)
 
 
-_SPD = [0]
+_SPD = __import__("harness.qlib", fromlist=["register_counter"]).register_counter([0])
 
 
 def _sp(F):
